@@ -1125,6 +1125,8 @@ impl Walrus {
         }
 
         // 5) Commit progress (optional)
+        // An offset-addressed read is stateless: it never moves the shared cursor or the persisted position
+        let checkpoint = checkpoint && start_offset.is_none();
         if entries_parsed > 0 {
             enum PersistTarget {
                 Tail { blk_id: u64, off: u64 },
